@@ -217,6 +217,9 @@ class St:
         self.seed = seed
         self.profile = {"version": cfg["version"], "eof": cfg["eof"], "max_fragment": cfg.get("frag", 2 ** 14)}
         self.nev = 0
+        self.npartial = 0          # partial deliveries so far (bounded, see BOUNDS)
+        self.maxpartial = cfg.get("partial")      # None = unbounded
+        self.cuts = CUTS[cfg.get("menu", "mixed")]
         self.bad = []
         self.flags = set()
         self.logged = []
@@ -314,6 +317,17 @@ def _cut(pending, how):
     raise ValueError(how)
 
 
+def _stop_producer(st, side):
+    """abstract.FileDescriptor.connectionLost: a real transport tells its registered producer to stop before the
+    protocol hears connectionLost; the (well-behaved) application producer then considers itself unregistered."""
+    prod = side.tr.producer
+    if prod is not None:
+        side.tr.producer = None
+        st._guard(side, "stopProducing", prod.stopProducing)
+    if side.prod is not None and side.prod.stopped:
+        side.registered = False
+
+
 def apply(st, ev):
     ns = _NS
     ConnectionDone, ConnectionLost, ConnectionAborted, Failure = ns.ConnectionDone, ns.ConnectionLost, ns.ConnectionAborted, ns.Failure
@@ -341,6 +355,8 @@ def apply(st, ev):
     elif op == "d":
         p = st.pending(side)
         n = _cut(p, ev[2])
+        if ev[2] != "all":
+            st.npartial += 1
         data = p[:n]
         side.delivered += n
         st._guard(side, "dataReceived", lambda: side.tls.dataReceived(data))
@@ -350,12 +366,14 @@ def apply(st, ev):
         side.closed = True
         side.closed_by = "asked"
         side.tr.disconnected = True
+        _stop_producer(st, side)
         reason = ConnectionAborted() if side.tr.aborted else ConnectionDone()
         st._guard(side, "connectionLost", lambda: side.tls.connectionLost(Failure(reason)))
     elif op == "eof":
         side.closed = True
         side.closed_by = "eof"
         side.tr.disconnected = True
+        _stop_producer(st, side)
         peer = st.sides[PEER[side.name]]
         reason = ConnectionLost() if peer.tr.aborted else ConnectionDone()
         st.flags.add("eof")
@@ -383,13 +401,13 @@ def pending_events(st):
             if p:
                 evs.append(("d", name, "all"))
                 n = len(p)
-                if n > 1:
-                    evs.append(("d", name, "one"))
-                if 1 < n // 2 < n:
-                    evs.append(("d", name, "half"))
-                r = _cut(p, "rec")
-                if r < n and r not in (1, n // 2):
-                    evs.append(("d", name, "rec"))
+                if st.maxpartial is None or st.npartial < st.maxpartial:
+                    seen = {n}
+                    for how in st.cuts:
+                        k = _cut(p, how)
+                        if 0 < k < n and k not in seen:
+                            seen.add(k)
+                            evs.append(("d", name, how))
             elif peer.closed:
                 evs.append(("eof", name))
             if side.tr.disconnecting:
@@ -445,7 +463,8 @@ def invariant(st, hist):
         got = bytes(rd.app.data)
         exp = _expected(wr)
         who = "client" if name == "c" else "server"
-        if not exp.startswith(got):
+        prefix_ok = exp.startswith(got)
+        if not prefix_ok:
             extra = None
             if got.startswith(exp):
                 extra = got[len(exp):]
@@ -471,7 +490,7 @@ def invariant(st, hist):
                         "was not told" % (who, rd.closed_by)))
         if quiet:
             must, req = _must(wr, rd)
-            if must and not got.startswith(must):
+            if must and prefix_ok and not got.startswith(must):
                 missing = None
                 off = 0
                 for c, p in req:
@@ -483,7 +502,10 @@ def invariant(st, hist):
                 out.append(("TLS:bytes-not-delivered-at-quiescence:%s:%s-write" % (closer, missing),
                             "quiescent, %s application received %r but the peer wrote %r before its loseConnection" % (
                                 who, got, must)))
-            waits_for_producer = any(s.lose_idx is not None and s.registered for s in st.sides.values())
+            # a push producer unregisters when the application decides to (an environment choice); a pull producer
+            # finishes by itself as long as the TLS layer keeps pulling it, so it is no excuse
+            waits_for_producer = any(s.lose_idx is not None and s.registered and s.mode == "push"
+                                     for s in st.sides.values())
             if anylose and not waits_for_producer:
                 if rd.app.lost != 1:
                     out.append(("TLS:no-connectionLost-at-quiescence-after-loseConnection",
@@ -525,7 +547,7 @@ def _engine_view(c):
 def canon(st):
     out = []
     order = tuple(sorted((s.lose_idx, n) for n, s in st.sides.items() if s.lose_idx is not None))
-    out.append(tuple(n for _i, n in order))
+    out.append((tuple(n for _i, n in order), None if st.maxpartial is None else min(st.npartial, st.maxpartial)))
     for name in ("c", "s"):
         s = st.sides[name]
         out.append((
@@ -543,28 +565,40 @@ def canon(st):
 # ------------------------------------------------------------------------------------------------
 # shards
 # ------------------------------------------------------------------------------------------------
+CUTS = {"rec": ("rec",), "bytes": ("one", "half"), "mixed": ("one", "half", "rec")}
+# depth per (tier, cut menu, start)
+DEPTH = {
+    "quick": {("rec", "fresh"): 10, ("rec", "est"): 9, ("bytes", "fresh"): 8, ("bytes", "est"): 7},
+    "thorough": {("rec", "fresh"): 13, ("rec", "est"): 12, ("bytes", "fresh"): 10, ("bytes", "est"): 9,
+                 ("mixed", "fresh"): 9, ("mixed", "est"): 8},
+}
+_ALL9 = [(a, b) for a in MODES for b in MODES]
+
+
 def configs(tier):
     out = []
-    engines = [("1.3", "syscall"), ("1.2", "ssl")]
-    if tier == "thorough":
-        engines += [("1.3", "ssl"), ("1.2", "syscall")]
-    for version, eof in engines:
-        for mc_ in MODES:
-            for ms in MODES:
-                for start in ("fresh", "est"):
-                    out.append({"version": version, "eof": eof, "modes": [mc_, ms], "start": start})
+    if tier == "quick":
+        plan = [(("1.3", "syscall"), [("direct", "direct"), ("push", "direct"), ("direct", "push"), ("pull", "direct"),
+                                      ("direct", "pull")]),
+                (("1.2", "ssl"), [("direct", "direct"), ("push", "pull"), ("pull", "push")])]
+        menus = ("rec", "bytes")
+    else:
+        plan = [(e, _ALL9) for e in (("1.3", "syscall"), ("1.2", "ssl"), ("1.3", "ssl"), ("1.2", "syscall"))]
+        menus = ("rec", "bytes", "mixed")
+    for (version, eof), modes in plan:
+        for m in modes:
+            for start in ("fresh", "est"):
+                for menu in menus:
+                    out.append({"version": version, "eof": eof, "modes": list(m), "start": start, "menu": menu})
     # small record fragments: send() consumes 2 of the 3 bytes per call (partial-write loop in _write)
-    for version, eof in engines[:2]:
+    for (version, eof), _m in plan[:2]:
         for start in ("fresh", "est"):
-            out.append({"version": version, "eof": eof, "modes": ["direct", "direct"], "start": start, "frag": 2})
+            out.append({"version": version, "eof": eof, "modes": ["direct", "direct"], "start": start, "menu": "rec", "frag": 2})
     return out
 
 
 def shards(tier, seed):
     return configs(tier)
-
-
-DEPTH = {"quick": {"fresh": 10, "est": 9}, "thorough": {"fresh": 13, "est": 12}}
 
 
 def _observe(stats, cfgkey, st):
@@ -616,7 +650,7 @@ def run_shard(shard, tier, seed):
     cfg = shard
     stats = Stats()
     cfgkey = repr(sorted(cfg.items()))
-    depth = DEPTH[tier][cfg["start"]]
+    depth = cfg.get("depth") or DEPTH[tier][(cfg["menu"], cfg["start"])]
 
     def on_state(st, hist):
         _observe(stats, cfgkey, st)
